@@ -232,6 +232,53 @@ def none_only_by_write(a, b):
     return False
 
 
+def sender_wrapper_rules(ck, f, c, r_fail, r_ok):
+    """encap / encap_ext around check_label_re_use: a failed call leaves every policy field at its
+    initial value; a successful call leaves them as check_label_re_use set them (exactly one call,
+    no write outside it). Returns the number of (Err, Ok) returns examined."""
+    from rules import c09
+    n_err = n_ok = 0
+    for wname in ('encap', 'encap_ext'):
+        def store_hook(I, w, frame, site, loc, v, _w=wname):
+            if frame.body.key == ENC + _w and loc.path and loc.path[0] in (('f', c.i_last), ('f', c.i_cur)):
+                w.mem[('G', 'self_written_outside')] = ('enum', ((1, ()),))
+
+        def on_clru(I, w, frame, site, key, args):
+            n = w.mem.get(('G', 'clru_calls'), ('int', Lin.c(0)))
+            w.mem[('G', 'clru_calls')] = ('int', n[1] + 1)
+            w.mem.pop(('G', 'self_written_outside'), None)
+        extra = dict(c09.ENCCFG)
+        extra['store_hook'] = store_hook
+        extra['call_hooks'] = {ENC + 'check_label_re_use': on_clru}
+        a = analyse_writer(ck, ENC + wname, tag='c04', extra=extra)
+        init = c09.self_fields(a, a.w0)
+        for w, rv in a.rets:
+            alts = ret_alts(rv) or []
+            fin = c09.self_fields(a, w)
+            if any(v == 1 for v, _ in alts):
+                n_err += 1
+                ck.obligations += 1
+                if not same_or_refined(init, fin, w):
+                    ck.finding(r_fail, ENC + wname, f"state-changed-then-Err:{c09.changed_fields(f, init, fin, w)}",
+                               f"{wname}: a failed call changes {c09.changed_fields(f, init, fin, w)}: the re-use state no longer matches what was put on the wire")
+                else:
+                    ck.discharged += 1
+            if any(v == 0 for v, _ in alts):
+                n_ok += 1
+                ck.obligations += 1
+                bad = False
+                if ghost(w, 'self_written_outside') is not None:
+                    bad = True
+                    ck.finding(r_ok, ENC + wname, 'ok-path-rewrites-memory', f"{wname}: a successful path writes last_label / the counter outside check_label_re_use")
+                hc = ghost(w, 'clru_calls')
+                if hc is None or not w.store.entails_eq(hc[1], Lin.c(1)):
+                    bad = True
+                    ck.finding(r_ok, ENC + wname, 'ok-path-without-clru', f"{wname}: a successful path does not call check_label_re_use exactly once")
+                if not bad:
+                    ck.discharged += 1
+    return n_err, n_ok
+
+
 def label_from_packet(p, d, k, tname):
     """p is a Label value whose bytes come from the input buffer of decap at the label offset"""
     if p[0] != 'enum' or len(p[1]) != 1 or not p[1][0][1]:
